@@ -27,6 +27,23 @@ type c01Rec struct {
 	Bad  [][]int `json:"bad"` // literals that are not integer literals within +/-(2^53-1)
 	Nz   bool    `json:"nz"`  // holds the literal -0
 	Ast  []int   `json:"ast"` // supplementary code points an ill-formed text really holds
+	// what a number reader would make of the characters of the text's STRINGS (CanonJSON.tla section 3b, NumLook:
+	// integer-out-of-range, fraction-or-exponent, inf-nan-word, hex-float, ...).  No expected result depends on it; it
+	// names the scenario class in the key of a disagreement.
+	Look []string `json:"look"`
+}
+
+// lookClass is the number look of the strings of a text that matters most to the room version 6 rule (a look that
+// would be refused if the string were a number), or "" if no string of the text looks like a number.
+func lookClass(look []string) string {
+	best, rank := "", -1
+	order := map[string]int{"integer-in-range": 0, "lenient-decimal": 1, "number-in-blanks": 2, "hex-float": 3, "fraction-or-exponent": 4, "inf-nan-word": 5, "integer-out-of-range": 6}
+	for _, l := range look {
+		if r, ok := order[l]; ok && r > rank {
+			best, rank = l, r
+		}
+	}
+	return best
 }
 
 // sameBuffer calls every entry point repeatedly on ONE buffer holding the text (never on a copy) and compares
@@ -324,6 +341,10 @@ func c01Replay(r *c01Rec, vt *versionTable) hx.Result {
 	}
 	matches := func(b []byte) bool { return bytes.Equal(b, want) || (alt != nil && bytes.Equal(b, alt)) }
 	nt := fmt.Sprintf("%s|%s|%s|bad=%v|nz=%v", r.Fam, r.St, r.Cor, len(r.Bad) > 0, r.Nz)
+	look := lookClass(r.Look)
+	if look != "" {
+		nt += "|string-looks-like=" + look
+	}
 	// results are kept ASCII only: the driver splits harness output with str.splitlines(), which also
 	// splits on U+0085 / U+2028 and friends
 	asc := func(x interface{}) interface{} {
@@ -442,15 +463,21 @@ func c01Replay(r *c01Rec, vt *versionTable) hx.Result {
 				note(v, "C01/enforced/output/"+classOf(r.Exp, r.Alt, o2), fmt.Sprintf("EnforcedCanonicalJSON = %+q, canonical form is %+q", o2, want))
 			}
 		default:
-			cls := "non-enforcing-version"
+			cls, why := "non-enforcing-version", ""
 			if enf {
 				cls = "admissible-numbers"
 			}
+			if look != "" {
+				// kinds do not cross: the text holds a STRING (value or key) whose characters a number reader would take
+				// for a number; it is no number, and no number of the text is inadmissible
+				cls += "/string-looks-like-number:" + look
+				why = fmt.Sprintf(" (every number of the text is an integer literal within range; what reads as %s is the content of a string %v)", look, r.Look)
+			}
 			if e1 != nil {
-				note(v, "C01/enforced/rejects/"+cls, "CheckCanonicalJSON refuses a text it must accept: "+e1.Error())
+				note(v, "C01/enforced/rejects/"+cls, "CheckCanonicalJSON refuses a text it must accept: "+e1.Error()+why)
 			}
 			if e2 != nil {
-				note(v, "C01/enforced/rejects/"+cls, "EnforcedCanonicalJSON refuses a text it must accept: "+e2.Error())
+				note(v, "C01/enforced/rejects/"+cls, "EnforcedCanonicalJSON refuses a text it must accept: "+e2.Error()+why)
 			} else if !matches(o2) {
 				note(v, "C01/enforced/output/"+classOf(r.Exp, r.Alt, o2), fmt.Sprintf("EnforcedCanonicalJSON = %+q, canonical form is %+q", o2, want))
 			}
